@@ -255,7 +255,13 @@ func (r *Run) opMpuComplete(op *Op) {
 	u.Gone = true
 	r.stats.Mutations++
 	g := r.quiet("GET", target(bucket, key, nil))
-	r.checkEntity(g, ent, false, "mpu.complete", "(after complete)")
+	clBody := "mpu.complete"
+	if r.Prop == "C08" {
+		// role in a C08 run: the parts held by the upload are still the accepted
+		// ones after every rejected re-upload
+		clBody = "reject.unchanged"
+	}
+	r.checkEntity(g, ent, false, clBody, "(after complete)")
 	lp := r.quiet("GET", target(bucket, key, url.Values{"uploadId": {id}}))
 	if lp.Status != 404 {
 		r.fail("mpu.complete", "the upload id still exists after a successful complete", "404 NoSuchUpload", lp.String())
